@@ -213,7 +213,7 @@ Lemma update_ep_same o sv e :
   /\ elive (update_ep o sv e) = elive e /\ ecancel (update_ep o sv e) = ecancel e
   /\ ehealthy (update_ep o sv e) = ehealthy e.
 Proof.
-  unfold update_ep. destruct ((ecl e =? o) && elive e); [|repeat split; reflexivity].
+  unfold update_ep. destruct ((ecl e =? o) && elive e && zmem (ename e) (map fst sv)); [|repeat split; reflexivity].
   match goal with |- context [ensure ?p ?x] => destruct (ensure_same p x) as [H1 [H2 [H3 [H4 [H5 [H6 _]]]]]] end.
   simpl in *. repeat split; assumption.
 Qed.
@@ -225,6 +225,8 @@ Proof.
   - rewrite H, andb_false_r. reflexivity.
 Qed.
 
+(* removal is unconditional: whatever the rest of the list (an unusable server included) *)
+
 Section Remove.
   Variables (rc : bool) (s : st) (name : Z) (aliases : list Z) (sv : list (Z * bool)) (o : Z) (c : clo).
   Hypothesis Hres : resolve s name = Some o.
@@ -235,10 +237,11 @@ Section Remove.
   Hypothesis Hpp : forall e, In e (eps s) -> pparent e = PEp.
 
   Let want := map fst sv.
+  Let svp := usable_prefix sv.
   Let s' := fst (step rc s (OUpsert name aliases sv)).
-  Let added := filter (fun n => negb (zmem n (live_names s o))) (dedup want).
+  Let added := filter (fun n => negb (zmem n (live_names s o))) (dedup (map fst svp)).
 
-  Lemma remove_eps : eps s' = map (update_ep o sv) (map (drop_ep o want) (eps s)) ++ fresh_eps (next s) o sv added.
+  Lemma remove_eps : eps s' = map (update_ep o svp) (map (drop_ep o want) (eps s)) ++ fresh_eps (next s) o svp added.
   Proof.
     unfold s'. simpl. unfold upsert. rewrite Hres, Hcl, Hprim, Z.eqb_refl, Hconf. reflexivity.
   Qed.
@@ -246,7 +249,7 @@ Section Remove.
   Proof.
     unfold s'. simpl. unfold upsert. rewrite Hres, Hcl, Hprim, Z.eqb_refl, Hconf. reflexivity.
   Qed.
-  Lemma remove_clos : clos s' = map (fun x => if cobj x =? o then mkCl (cobj x) (name :: aliases) (ccancel x) else x) (clos s).
+  Lemma remove_clos : clos s' = map (fun x => if cobj x =? o then mkCl (cobj x) (pick (all_usable sv) (name :: aliases) (cnames x)) (ccancel x) else x) (clos s).
   Proof.
     unfold s'. simpl. unfold upsert. rewrite Hres, Hcl, Hprim, Z.eqb_refl, Hconf. reflexivity.
   Qed.
@@ -254,10 +257,10 @@ Section Remove.
   Lemma drop_ep_key e : eobj (drop_ep o want e) = eobj e.
   Proof. unfold drop_ep. destruct ((ecl e =? o) && elive e && negb (zmem (ename e) want)); reflexivity. Qed.
 
-  Lemma remove_find_ep eo e : find_ep s eo = Some e -> find_ep s' eo = Some (update_ep o sv (drop_ep o want e)).
+  Lemma remove_find_ep eo e : find_ep s eo = Some e -> find_ep s' eo = Some (update_ep o svp (drop_ep o want e)).
   Proof.
     intros H. unfold find_ep in *. rewrite remove_eps, find_app.
-    rewrite (find_map_key eobj (update_ep o sv) eo); [|intros x; apply update_ep_same].
+    rewrite (find_map_key eobj (update_ep o svp) eo); [|intros x; apply update_ep_same].
     rewrite (find_map_key eobj (drop_ep o want) eo (eps s) drop_ep_key). rewrite H. reflexivity.
   Qed.
 
@@ -287,7 +290,7 @@ Section Remove.
       assert (E : (ecl e =? o) && elive e && negb (zmem (ename e) want) = true).
       { rewrite Hl, Hw. assert (E1 : ecl e =? o = true) by lia. rewrite E1. reflexivity. }
       rewrite E. reflexivity. }
-    assert (Hu : update_ep o sv d = d) by (apply update_ep_id; right; reflexivity).
+    assert (Hu : update_ep o svp d = d) by (apply update_ep_id; right; reflexivity).
     assert (Hf' : find_ep s' eo = Some d) by (rewrite (remove_find_ep eo e Hf), Hd, Hu; reflexivity).
     assert (Hdone : ep_done s' d = true) by (unfold ep_done; simpl; apply orb_true_r).
     assert (Hp : probe_done s' d = true).
@@ -324,8 +327,8 @@ Section Remove.
         - rewrite H. apply andb_false_r.
         - rewrite H. rewrite andb_false_r. reflexivity. }
       rewrite E0. reflexivity. }
-    exists (update_ep o sv e). rewrite (remove_find_ep eo e Hf), E.
-    destruct (update_ep_same o sv e) as [H1 [H2 [H3 [H4 [H5 H6]]]]].
+    exists (update_ep o svp e). rewrite (remove_find_ep eo e Hf), E.
+    destruct (update_ep_same o svp e) as [H1 [H2 [H3 [H4 [H5 H6]]]]].
     split; [reflexivity|]. repeat (split; [assumption|]). split.
     - unfold ep_done. rewrite H2, H5, remove_cl_done. reflexivity.
     - intros H. apply update_ep_id. exact H.
@@ -678,7 +681,7 @@ Proof.
       rewrite map_map in He. apply in_map_iff in He. destruct He as [x [<- Hx]].
       assert (Hd : pparent (drop_ep z (map fst sv) x) = PEp).
       { unfold drop_ep. destruct ((ecl x =? z) && elive x && negb (zmem (ename x) (map fst sv))); simpl; apply Hp; exact Hx. }
-      unfold update_ep. destruct ((ecl (drop_ep z (map fst sv) x) =? z) && elive (drop_ep z (map fst sv) x)); [|exact Hd].
+      unfold update_ep. match goal with |- context [if ?c then _ else _] => destruct c end; [|exact Hd].
       apply ensure_parent; [exact Hd|reflexivity].
     + intros e He. simpl in He. apply in_app_or in He. destruct He as [He|He]; [exact (Hp e He)|exact (fresh_parent _ _ _ _ _ He)].
   - unfold delete. crack; exact Hp.
